@@ -115,6 +115,8 @@ class Gen:
             # construct in between must leave it as found
             return '{%% autoescape %s %%}(%d={{ lt }}%s{{ lt }}=%d){%% endautoescape %%}%s' % (
                 self.fresh('f'), level, body(None), level, s)
+        if kind == 'block':
+            return '{%% block %s %%}%s{%% endblock %%}%s' % (self.fresh('blk'), body(None), s)
         if kind == 'if':
             return '{%% if %s %%}%s{%% endif %%}%s' % (self.fresh('c'), body(None), s)
         if kind == 'ifelse':
@@ -138,6 +140,17 @@ def program(chain, leaf):
         return g.wrap(kind, lambda v: build(i + 1, v or loopvar) + 'u', i)
 
     return build(0, None) + '{{ lt }}|END'
+
+
+def block_in_loop_family():
+    """a block inside a loop body starts a scope of its own: loop controls directly in it are rejected by the
+    parser (they are compiled by a generator that knows no enclosing loop); if they are accepted, the emitted
+    clean-up must still balance - the typing decides"""
+    out = []
+    for chain in (['for', 'block'], ['for', 'block', 'with'], ['for', 'block', 'setblock'], ['forelse', 'block', 'with'], ['for', 'with', 'block', 'if']):
+        for leaf in ('text', 'emit', 'break', 'continue', 'ifbreak', 'ifcontinue'):
+            out.append(dict(chain=list(chain), leaf=leaf, src=program(chain, leaf)))
+    return out
 
 
 def family(max_depth, with_macros=False, leaves=None, scoped=None):
